@@ -64,12 +64,14 @@ func (r *router) startQuicServer(cfg *ServerConfig) (*quicServer, error) {
 	l, err := qt.Listen(tlsConfig, quicConfig)
 	if err != nil {
 		qt.Close()
+		uc.Close()
 		return nil, fmt.Errorf("failed to listen quic, %w", err)
 	}
 
 	s := &quicServer{
 		r:           r,
 		l:           l,
+		t:           qt,
 		idleTimeout: idleTimeout,
 		logger:      r.subLoggerForServer("server_quic", cfg.Tag),
 	}
@@ -89,6 +91,7 @@ func (r *router) startQuicServer(cfg *ServerConfig) (*quicServer, error) {
 type quicServer struct {
 	r           *router
 	l           *quic.Listener
+	t           *quic.Transport
 	idleTimeout time.Duration
 	logger      *zerolog.Logger
 
@@ -190,6 +193,10 @@ func (s *quicServer) Close() error {
 	s.closeOnce.Do(func() {
 		s.closed.Store(true)
 		s.l.Close()
+		// Closing the listener does not close the transport and
+		// quic.Transport.Close() does not close a socket that it did not create.
+		s.t.Close()
+		s.t.Conn.Close()
 	})
 	return nil
 }
